@@ -110,7 +110,11 @@ class K:
     # ---- supply forms
     def raw_nxp(self):
         if self.kind == "rsa":
-            return self.a.to_bytes(self.bits // 8, "big") + self.b.to_bytes(3, "big")
+            # SPSDK's raw RSA form is modulus + 3 or 4 exponent bytes; an exponent above 32 bits has no raw form (DER is used instead)
+            if self.b >= 2 ** 32:
+                from cryptography.hazmat.primitives import serialization as ser
+                return self.pub.public_bytes(ser.Encoding.DER, ser.PublicFormat.SubjectPublicKeyInfo)
+            return self.a.to_bytes(self.bits // 8, "big") + self.b.to_bytes(3 if self.b < 2 ** 24 else 4, "big")
         return self.a.to_bytes(self.cs, "big") + self.b.to_bytes(self.cs, "big")
 
     def form(self, name, scratch):
@@ -172,8 +176,9 @@ CERT_FORMS = ["cert_der_none", "cert_pem_none", "obj_cert_none", "path:cert_der_
               "cert_der_bc_only", "cert_der_ku_only", "path:cert_pem_both"]
 
 
-def ecc_key(rng, bits, want_lead_zero=False, want_two=False):
-    """deterministic EC key from the run's PRNG; rejection sampling for leading-zero coordinates"""
+def ecc_key(rng, bits, want_lead_zero=False, want_two=False, which=None):
+    """deterministic EC key from the run's PRNG; rejection sampling for leading-zero coordinates
+    (`which` = "x" / "y": that coordinate must be the short one)"""
     from cryptography.hazmat.primitives.asymmetric import ec
     curve = {256: ec.SECP256R1(), 384: ec.SECP384R1(), 521: ec.SECP521R1()}[bits]
     order_bits = bits
@@ -188,8 +193,38 @@ def ecc_key(rng, bits, want_lead_zero=False, want_two=False):
             return K(priv)
         n = priv.public_key().public_numbers()
         lim = 256 ** (cs - (2 if want_two else 1))
-        if n.x < lim or n.y < lim:
+        if (which in (None, "x") and n.x < lim) or (which in (None, "y") and n.y < lim):
             return K(priv)
+
+
+_SMALL_PRIMES = [p for p in range(3, 2000) if all(p % q for q in range(2, int(p ** 0.5) + 1))]
+
+
+def _prime(rng, bits, e):
+    """deterministic (seeded) probable prime with its two top bits set and gcd(e, p - 1) = 1"""
+    import math
+    while True:
+        p = rng.getrandbits(bits) | (3 << (bits - 2)) | 1
+        if any(p % q == 0 for q in _SMALL_PRIMES) or math.gcd(e, p - 1) != 1:
+            continue
+        if all(pow(a, p - 1, p) == 1 for a in (2, 3, 5, 7, 11, 13)):
+            return p
+
+
+def rsa_key_with_e(rng, e, bits=2048):
+    """RSA key with an arbitrary odd public exponent (cryptography's generator only offers 3 and 65537)"""
+    from cryptography.hazmat.primitives.asymmetric import rsa
+    while True:
+        p, q = _prime(rng, bits // 2, e), _prime(rng, bits // 2, e)
+        if p != q and (p * q).bit_length() == bits:
+            break
+    d = pow(e, -1, (p - 1) * (q - 1))
+    nums = rsa.RSAPrivateNumbers(p, q, d, rsa.rsa_crt_dmp1(d, p), rsa.rsa_crt_dmq1(d, q), rsa.rsa_crt_iqmp(p, q), rsa.RSAPublicNumbers(e, p * q))
+    return K(nums.private_key())
+
+
+RSA_EXPONENTS = [3, 257, 65539, (1 << 24) + 1, (1 << 32) - 1]     # 1, 2, 3, 4, 4 bytes; 65537 is the rest of the pool
+RSA_EXPONENT_TOO_BIG = (1 << 32) + 1                               # does not fit the 4-byte exponent field of an AHAB SRK record
 
 
 def load_priv(path, password=None):
@@ -401,8 +436,16 @@ def run(ck, replay_sets=None):
     n_lz = ck.budget(20, 60)
     for bits in (256, 384, 521):
         pool[("ecc", bits)] = [ecc_key(rng, bits) for _ in range(ck.budget(6, 12))]
-        pool[("ecc_lz", bits)] = [ecc_key(rng, bits, True) for _ in range(n_lz)]
+        pool[("ecc_lz", bits)] = ([ecc_key(rng, bits, True, which="x") for _ in range(n_lz // 2)]
+                                  + [ecc_key(rng, bits, True, which="y") for _ in range(n_lz - n_lz // 2)])
     pool[("ecc_lz2", 521)] = [ecc_key(rng, 521, True, True) for _ in range(ck.budget(3, 10))]
+    if not ck.quick:
+        pool[("ecc_lz2", 256)] = [ecc_key(rng, 256, True, True) for _ in range(2)]        # two leading zero bytes (2^-15 per key)
+    # RSA keys with other public exponents (1, 2, 3 and 4 bytes, incl. the 32-bit boundary) - outside the property's quantifier
+    # (e = 65537) but inside the theorems' domain 0 < e < 2^32; plus one exponent that does not fit 32 bits
+    pool[("rsa_e", 2048)] = [rsa_key_with_e(rng, e) for e in RSA_EXPONENTS for _ in range(ck.budget(1, 2))]
+    pool[("rsa_e_same", 2048)] = [rsa_key_with_e(rng, (1 << 32) - 1) for _ in range(3)] + [k for k in pool[("rsa_e", 2048)] if k.b == (1 << 32) - 1][:1]
+    pool[("rsa_e_big", 2048)] = [rsa_key_with_e(rng, RSA_EXPONENT_TOO_BIG)]
     ck.extra["key_pool"] = {f"{a}{b}": len(v) for (a, b), v in pool.items()}
 
     if replay_sets:
@@ -418,6 +461,8 @@ def run(ck, replay_sets=None):
     stream_negative(ck, ask, pool, scratch, by_type)
     stream_codec(ck, ask, pool, scratch)
     stream_isk(ck, ask, pool, scratch)
+    stream_config_cli(ck, ask, pool, scratch, by_type)
+    stream_vx(ck, ask, pool, scratch, by_type)
     stream_cli(ck, pool, scratch, by_type)
     ask.flush()
     logging.disable(logging.NOTSET)
@@ -568,8 +613,19 @@ def stream_paths(ck, ask, pool, scratch, by_type, only_sets=None, name="rot_path
                 ks = [k] + rng.sample(pool[("ecc", bits)], n - 1)
                 rng.shuffle(ks)
                 out.append(tuple(ks))
+        for bits in (256,):
+            for k in pool.get(("ecc_lz2", bits), []):
+                out.append((k,) + tuple(rng.sample(pool[("ecc", bits)], rng.choice([0, 1, 3]))))
         mixed = [rng.choice(pool[("rsa", 2048)]), rng.choice(pool[("rsa", 4096)] or pool[("rsa", 2048)])] + ([rng.choice(pool[("rsa", 3072)])] if pool[("rsa", 3072)] else [])
         out += list(itertools.permutations(mixed))
+        # other public exponents: each alone, mixed with 65537 keys, four equal boundary exponents (AHAB domain)
+        for k in pool[("rsa_e", 2048)]:
+            out.append((k,))
+            ks = [k] + rng.sample(pool[("rsa", 2048)], rng.choice([1, 2, 3]))
+            rng.shuffle(ks)
+            out.append(tuple(ks))
+        out.append(tuple(pool[("rsa_e_same", 2048)]))
+        out.append(tuple(rng.sample(pool[("rsa_e", 2048)], 4)))
         return out
 
     sets = only_sets if only_sets is not None else key_sets()
@@ -643,9 +699,12 @@ def stream_paths(ck, ask, pool, scratch, by_type, only_sets=None, name="rot_path
             # debug credential
             files = {"rot_meta": [k.file(rng.choice(["pub_pem", "cert_der_none", "priv_pem"]), scratch) for k in keys]}
             rd = cres(lambda: RotMetaRSA.load_from_config(files).calculate_hash())
-            check(inp, "RotMetaRSA", rd, "cert_block_1", keys, no_ca, f"path datrsa {toks}")
-            agree["dat"] = rd
-            if uniform and bits in (2048, 4096) and dat_rsa_fams:
+            # RotMetaRSA pads the exponent to 3 bytes: it is the cert-block-v1 value exactly for 3-byte exponents (theorem hypothesis)
+            e3 = all((k.b.bit_length() + 7) // 8 == 3 for k in keys)
+            check(inp, "RotMetaRSA", rd, "cert_block_1", keys, no_ca, f"path datrsa {toks}", in_domain=e3)
+            if e3:
+                agree["dat"] = rd
+            if uniform and bits in (2048, 4096) and dat_rsa_fams and e3:
                 used = rng.randrange(n)
                 fam = rng.choice(dat_rsa_fams)
                 rdc = cres(real_dat, keys, used, scratch, fam)
@@ -817,6 +876,8 @@ def stream_negative(ck, ask, pool, scratch, by_type):
             rng.sample(e2, 4) + [rng.choice(e2)], [], rng.sample(r2, 3), rng.sample(e2, 2),
             rng.sample(r2, 3) + [rng.choice(r4)], rng.sample(e2, 3) + [rng.choice(e3)], [rng.choice(e2), rng.choice(e5)],
         ]
+    big = pool[("rsa_e_big", 2048)]
+    cases += [list(big), rng.sample(r2, 3) + big, big + rng.sample(r2, 1)]
     for keys in cases:
         toks = ktoks(keys)
         objs = [PublicKey.create(k.pub) for k in keys]
@@ -841,7 +902,7 @@ def stream_negative(ck, ask, pool, scratch, by_type):
             real = cres(lambda: Rot(fam, rev, [v[0] for v in va]).calculate_hash())
             s.note((tuple(k.id for k in keys), rt, tuple(cas)), cls=f"Rot({rt}):" + real[:2])
             ask(f"path rot {rt} {ktoks(keys, cas)}", lambda a, real=real, inp=inp, rt=rt, cas=cas: s.compare(dict(inp, path=f"Rot({rt})", ca=cas), real, a, "AHAB Rot: model differs on a refused / out-of-domain table"))
-            if not keys_ok(rt, keys) or len(set(cas)) > 1:
+            if (not keys_ok(rt, keys) or len(set(cas)) > 1) and all(k.kind != "rsa" or k.b < 2 ** 32 for k in keys):
                 s.expect(real == "E:spsdk", dict(inp, rot_type=rt, ca=cas), "an SRK table outside the documented domain (not four keys of one kind with equal CA flags) is not refused with an SPSDKError", real)
         # unknown rot type / family without RoT
     for fam in ("mc56f81868",):
@@ -892,6 +953,9 @@ def stream_codec(ck, ask, pool, scratch):
                 f"{','.join(c.export().hex() for c in cb.certificates)} {','.join(h.hex() for h in cb.rkh)}")
         ask(line, lambda a, ex=ex, keys=keys: s.compare(kdesc(keys), hx(ex[1]), a, "CertBlockV1.export differs from the model"))
         s.expect(len(ex[1]) % cb.alignment == 0, kdesc(keys), "CertBlockV1.export length is not aligned")
+        used_len = 32 + struct.unpack_from("<I", ex[1], 28)[0] + 128
+        s.expect(len(ex[1]) - used_len < cb.alignment and not any(ex[1][used_len:]), kdesc(keys),
+                 "CertBlockV1.export: what follows header | certificates | RKH table is not (less than one alignment unit of) zero padding", ex[1][used_len:].hex())
         # parse: real vs model on the exported block and on mutations of its header / length (certificate bytes stay intact)
         data = ex[1]
         muts = [("intact", data), ("trunc-hdr", data[:rng.randrange(0, 32)]), ("trunc-rkht", data[:len(data) - rng.randrange(1, 140)]),
@@ -1071,6 +1135,282 @@ def stream_isk(ck, ask, pool, scratch):
         s.expect(r[0] == "E:spsdk", {"user_data_len": ln, "family": fam}, "ISK user data beyond the family limit / alignment is not refused", r[0])
     ask.flush()
 
+
+
+# ------------------------------------------------------------------------------------------------ configuration / CLI glue
+def stream_config_cli(ck, ask, pool, scratch, by_type):
+    """the glue around the modelled core: YAML configuration -> `from_config` -> export, `nxpimage cert-block export / parse`
+    through click's CliRunner, `get_config` / `create_config` of a parsed block"""
+    import re
+    import yaml
+    from click.testing import CliRunner
+    from spsdk.apps import nxpimage
+    from spsdk.crypto.certificate import Certificate
+    from spsdk.utils.crypto.cert_blocks import CertBlock, CertBlockV1, CertBlockV21
+    from spsdk.utils.misc import load_configuration
+    rng = ck.rng
+    s = ck.stream("config_cli", "certificate blocks built from a YAML configuration: `CertBlockV1/V21.from_config`, `nxpimage cert-block export -c cfg -f family` "
+                  "and `nxpimage cert-block parse -b bin -f family -o dir` (CliRunner) for 1..4 root keys, every used index given explicitly "
+                  "(mainRootCertId) or found from the private key, certificate chain, ISK with / without user data: exported bytes = bytes of the "
+                  "directly built block = model export (signature masked and verified independently), printed RKTH = documented value, "
+                  "the recreated configuration names the used root / ISK key / user data, and for single-root CA blocks "
+                  "from_config(get_config(parse(export))) exports the same bytes; non-trivial = distinct (key set, used, options)")
+    runner = CliRunner()
+    v1_fams = [f for f, _ in by_type["cert_block_1"] if f in CertBlockV1.get_supported_families()]
+    v21_fams = [f for f, _ in by_type["cert_block_21"] if f in CertBlockV21.get_supported_families()]
+    n_cases = ck.budget(16, 100)
+    for ci in range(n_cases):
+        d = Path(scratch) / f"cfg{ci}"
+        d.mkdir(exist_ok=True)
+        if ci % 2 == 0 and v1_fams:
+            fam = rng.choice(v1_fams)
+            n = rng.choice([1, 2, 3, 4])
+            keys = rng.sample(pool[("rsa", 2048)] + pool[("rsa_e", 2048)][:2], n)
+            used = rng.randrange(n)
+            chain = n > 1 and rng.random() < 0.4
+            build = rng.choice([0, 1, 77, 0xFFFFFFFF])
+            cfg = {"imageBuildNumber": build, "containerOutputFile": "cb.bin"}
+            for i, k in enumerate(keys):
+                (d / f"root{i}.der").write_bytes(k.form("cert_der_both" if (chain and i == used) else "cert_der_none", scratch)[0])
+                cfg[f"rootCertificate{i}File"] = f"root{i}.der"
+            by_key = rng.random() < 0.5
+            if by_key and not chain:
+                (d / "main.pem").write_bytes(keys[used].form("priv_pem", scratch)[0])
+                cfg["mainCertPrivateKeyFile"] = "main.pem"
+            else:
+                cfg["mainRootCertId"] = used
+            leaf = keys[(used + 1) % n]
+            if chain:
+                from cryptography.hazmat.primitives import serialization as ser
+                (d / "leaf.der").write_bytes(leaf.cert("none", issuer=keys[used]).public_bytes(ser.Encoding.DER))
+                cfg[f"chainCertificate{used}File0"] = "leaf.der"
+            (d / "cfg.yaml").write_text(yaml.safe_dump(cfg))
+            inp = kdesc(keys, used=used, family=fam, chain=chain, index_from_private_key=by_key and not chain, build=build)
+            s.note(("v1", tuple(k.id for k in keys), used, chain, by_key, build), cls=f"v1-{n}{'-chain' if chain else ''}{'-bykey' if by_key and not chain else ''}")
+            exp_rkth = spec_py("cert_block_1", keys).hex()
+            a = pyres(lambda: CertBlockV1.from_config(load_configuration(str(d / "cfg.yaml")), search_paths=[str(d)]))
+            if a[0] != "ok":
+                s.expect(False, inp, "CertBlockV1.from_config fails on a valid configuration", a)
+                continue
+            ea = pyres(a[1].export)
+            s.expect(ea[0] == "ok" and cres(lambda: a[1].rkth) == "ok:" + exp_rkth and safe(lambda: a[1].rkh_index) == used, inp,
+                     "from_config: RKTH / used index differ from the documented value", (ea[0], cres(lambda: a[1].rkth), safe(lambda: a[1].rkh_index)), exp_rkth)
+            if ea[0] != "ok":
+                continue
+            # the same block built directly
+            cbr = pyres(real_cb1, keys, used, scratch, chain)
+            if cbr[0] == "ok":
+                cbr[1]._header.build_number = build
+                s.expect(pyres(cbr[1].export) == ea, inp, "from_config exports other bytes than the block built through the API", None)
+            certs = [c.export().hex() for c in a[1].certificates]
+            ask(f"cb1_export 1 1 0 0 {build} 0 16 {','.join(certs)} {','.join(key_hash(k).hex() for k in keys)}",
+                lambda ans, ea=ea, inp=inp: s.compare(inp, hx(ea[1]), ans, "from_config export differs from the model export of (certificates, key hashes, build number)"))
+            r = runner.invoke(nxpimage.main, ["cert-block", "export", "-c", str(d / "cfg.yaml"), "-f", fam])
+            out = d / "cb.bin"
+            m = re.search(r"RKTH: ([0-9a-f]+)", r.output or "")
+            s.expect(r.exit_code == 0 and out.exists() and out.read_bytes() == ea[1] and m and m.group(1) == exp_rkth, inp,
+                     "nxpimage cert-block export: file / printed RKTH differ from from_config / the documented value", (r.exit_code, (r.output or "")[-160:]))
+            if not out.exists():
+                continue
+            od = d / "parsed"
+            r2 = runner.invoke(nxpimage.main, ["cert-block", "parse", "-b", str(out), "-f", fam, "-o", str(od)])
+            m2 = re.search(r"RKTH: ([0-9a-f]+)", r2.output or "")
+            s.expect(r2.exit_code == 0 and m2 and m2.group(1) == exp_rkth, inp, "nxpimage cert-block parse does not print the documented RKTH", (r2.exit_code, (r2.output or "")[-160:]))
+            cfg2 = pyres(lambda: load_configuration(str(od / "cert_block_config.yaml")))
+            if cfg2[0] == "ok":
+                c2 = cfg2[1]
+                rootf = od / str(c2.get(f"rootCertificate{used}File"))
+                s.expect(c2.get("mainRootCertId") == used and c2.get("imageBuildNumber") == build and rootf.exists()
+                         and safe(lambda: Certificate.load(str(rootf)).export()) == a[1].certificates[0].export(), inp,
+                         "recreated configuration does not name the used root certificate / build number", {k: c2.get(k) for k in ("mainRootCertId", "imageBuildNumber")})
+                if n == 1:
+                    b = pyres(lambda: CertBlockV1.from_config(c2, search_paths=[str(od)]).export())
+                    s.expect(b == ea, inp, "single-root block: from_config(create_config(parse(export))) exports other bytes", b[0])
+            else:
+                s.expect(False, inp, "recreated configuration cannot be loaded", cfg2)
+        elif v21_fams:
+            fam = rng.choice(v21_fams)
+            bits = rng.choice([256, 384])
+            n = rng.choice([1, 2, 3, 4])
+            keys = rng.sample(pool[("ecc", bits)] + pool[("ecc_lz", bits)][:4], n)
+            used = rng.randrange(n)
+            use_isk = rng.random() < 0.6
+            isk = rng.choice(pool[("ecc", rng.choice([256, 384]))]) if use_isk else None
+            ud = bytes(rng.getrandbits(8) for _ in range(4 * rng.randrange(1, 25))) if (use_isk and rng.random() < 0.6) else None
+            cons = rng.choice([0, 1, 5])
+            cfg = {"family": fam, "useIsk": use_isk, "containerOutputFile": "cb.bin", "mainRootCertId": used}
+            for i, k in enumerate(keys):
+                base = rng.choice(["pub_pem", "pub_der", "cert_der_none", "priv_pem"])
+                (d / f"root{i}.bin").write_bytes(k.form(base, scratch)[0])
+                cfg[f"rootCertificate{i}File"] = f"root{i}.bin"
+            by_key = rng.random() < 0.4
+            if use_isk or by_key:
+                (d / "rootk.pem").write_bytes(keys[used].form("priv_pem", scratch)[0])
+                cfg["signPrivateKey"] = "rootk.pem"
+            if by_key:
+                del cfg["mainRootCertId"]
+            if use_isk:
+                (d / "isk.pub").write_bytes(isk.form("pub_pem", scratch)[0])
+                cfg["iskPublicKey"] = "isk.pub"
+                cfg["iskCertificateConstraint"] = cons
+                if ud:
+                    (d / "ud.bin").write_bytes(ud)
+                    cfg["iskCertData"] = "ud.bin"
+            (d / "cfg.yaml").write_text(yaml.safe_dump(cfg))
+            inp = kdesc(keys, used=used, family=fam, isk=None if isk is None else isk.desc(), user_data=None if ud is None else ud.hex(),
+                        index_from_private_key=by_key, constraints=cons)
+            s.note(("v21", tuple(k.id for k in keys), used, use_isk, None if ud is None else len(ud), by_key), cls=f"v21-{n}{'-isk' if use_isk else '-ca'}{'-bykey' if by_key else ''}")
+            exp_rkth = spec_py("cert_block_21", keys).hex()
+            a = pyres(lambda: CertBlockV21.from_config(load_configuration(str(d / "cfg.yaml")), search_paths=[str(d)]))
+            if a[0] != "ok":
+                s.expect(False, inp, "CertBlockV21.from_config fails on a valid configuration", a)
+                continue
+            ea = pyres(a[1].export)
+            s.expect(ea[0] == "ok" and cres(lambda: a[1].rkth) == "ok:" + exp_rkth, inp, "from_config: RKTH differs from the documented value", cres(lambda: a[1].rkth), exp_rkth)
+            if ea[0] != "ok":
+                continue
+            cs = CURVES[bits][1]
+            body_len = len(ea[1]) - (2 * cs if use_isk else 0)          # everything but the (randomised) ISK signature
+            ok_sig = True
+            if use_isk:
+                ok_sig = _verify_isk(keys[used], bits, ea[1])
+            s.expect(ok_sig, inp, "from_config: ISK signature does not verify under the selected root key over block[12 : signature]")
+            cbr = pyres(real_cb21, keys, ["obj_pub"] * n, used, scratch, isk, ud, fam, cons)
+            if cbr[0] == "ok":
+                eb = pyres(cbr[1].export)
+                s.expect(eb[0] == "ok" and eb[1][:body_len] == ea[1][:body_len] and len(eb[1]) == len(ea[1]), inp,
+                         "from_config exports other bytes (signature aside) than the block built through the API")
+            if by_key:
+                # the CLI's schema (certificate_root_keys) accepts the index-from-private-key form only under the v1 option name;
+                # through the CLI the index is therefore given explicitly (observation recorded in design_notes/C03.md)
+                (d / "cfg.yaml").write_text(yaml.safe_dump(dict(cfg, mainRootCertId=used)))
+            r = runner.invoke(nxpimage.main, ["cert-block", "export", "-c", str(d / "cfg.yaml"), "-f", fam])
+            out = d / "cb.bin"
+            m = re.search(r"RKTH: ([0-9a-f]+)", r.output or "")
+            got = out.read_bytes() if out.exists() else b""
+            s.expect(r.exit_code == 0 and got[:body_len] == ea[1][:body_len] and len(got) == len(ea[1]) and m and m.group(1) == exp_rkth
+                     and (not use_isk or _verify_isk(keys[used], bits, got)), inp,
+                     "nxpimage cert-block export: file / printed RKTH / ISK signature differ from from_config / the documented value", (r.exit_code, (r.output or "")[-160:]))
+            if not out.exists():
+                continue
+            od = d / "parsed"
+            r2 = runner.invoke(nxpimage.main, ["cert-block", "parse", "-b", str(out), "-f", fam, "-o", str(od)])
+            m2 = re.search(r"RKTH: ([0-9a-f]+)", r2.output or "")
+            s.expect(r2.exit_code == 0 and m2 and m2.group(1) == exp_rkth, inp, "nxpimage cert-block parse does not print the documented RKTH", (r2.exit_code, (r2.output or "")[-160:]))
+            cfg2 = pyres(lambda: load_configuration(str(od / "cert_block_config.yaml")))
+            if cfg2[0] != "ok":
+                s.expect(False, inp, "recreated configuration cannot be loaded", cfg2)
+                continue
+            c2 = cfg2[1]
+            from spsdk.crypto.keys import PublicKey
+            rootf = od / str(c2.get(f"rootCertificate{used}File"))
+            got_root = safe(lambda: (PublicKey.load(str(rootf)).x, PublicKey.load(str(rootf)).y))
+            s.expect(c2.get("mainRootCertId") == used and bool(c2.get("useIsk")) == use_isk and got_root == (keys[used].a, keys[used].b), inp,
+                     "recreated configuration does not name the used root key / ISK usage", {k: c2.get(k) for k in ("mainRootCertId", "useIsk")})
+            if use_isk:
+                iskf = od / str(c2.get("signingCertificateFile"))
+                got_isk = safe(lambda: (PublicKey.load(str(iskf)).x, PublicKey.load(str(iskf)).y))
+                udf = od / str(c2.get("signCertData")) if c2.get("signCertData") else None
+                s.expect(got_isk == (isk.a, isk.b) and c2.get("signingCertificateConstraint") == cons
+                         and ((udf.read_bytes() if udf and udf.exists() else None) == ud), inp,
+                         "recreated configuration does not give back the ISK key / constraint / user data")
+            elif n == 1:
+                c2["family"] = fam
+                b = pyres(lambda: CertBlockV21.from_config(c2, search_paths=[str(od)]).export())
+                s.expect(b == ea, inp, "single-root CA block: from_config(create_config(parse(export))) exports other bytes", b[0])
+        if len(ask.lines) > 200:
+            ask.flush()
+    ask.flush()
+
+
+def _verify_isk(root, bits, block):
+    """ECDSA check with `cryptography` of the ISK signature at the end of an exported v2.1 block under key `root`"""
+    from cryptography.exceptions import InvalidSignature
+    from cryptography.hazmat.primitives import hashes
+    from cryptography.hazmat.primitives.asymmetric import ec
+    from cryptography.hazmat.primitives.asymmetric.utils import encode_dss_signature
+    cs = CURVES[bits][1]
+    try:
+        signed, sig = block[12:len(block) - 2 * cs], block[len(block) - 2 * cs:]
+        der = encode_dss_signature(int.from_bytes(sig[:cs], "big"), int.from_bytes(sig[cs:], "big"))
+        root.pub.verify(der, signed, ec.ECDSA({256: hashes.SHA256(), 384: hashes.SHA384()}[bits]))
+        return True
+    except (InvalidSignature, ValueError):
+        return False
+
+
+# ------------------------------------------------------------------------------------------------ certificate block Vx (MC56)
+def stream_vx(ck, ask, pool, scratch, by_type):
+    import re
+    import yaml
+    from click.testing import CliRunner
+    from cryptography.exceptions import InvalidSignature
+    from cryptography.hazmat.primitives import hashes
+    from cryptography.hazmat.primitives.asymmetric import ec
+    from cryptography.hazmat.primitives.asymmetric.utils import encode_dss_signature
+    from spsdk.apps import nxpimage
+    from spsdk.crypto.signature_provider import PlainFileSP
+    from spsdk.utils.crypto.cert_blocks import CertBlockVx
+    rng = ck.rng
+    s = ck.stream("certblock_vx", "CertBlockVx / IskCertificateLite (MC56F8xxxx): ISK key x signing key x self-signed flag - to-be-signed bytes "
+                  "(= `nxpimage cert-block get-isk-tbs`) and exported block vs the model, signature verified with `cryptography` over exactly the "
+                  "72 to-be-signed bytes, export -> parse -> export identity, cert_hash = SHA-256(export)[:16] and the OTP script words vs the "
+                  "model, `nxpimage cert-block export` for a based_on_certx family; non-trivial = distinct (ISK key, signer, flag)")
+    fams = pyres(CertBlockVx.get_supported_families)
+    fam = fams[1][0] if fams[0] == "ok" and fams[1] else None
+    runner = CliRunner()
+    p256 = pool[("ecc", 256)] + pool[("ecc_lz", 256)][:6]
+    for ci in range(ck.budget(10, 80)):
+        isk, signer = rng.choice(p256), rng.choice(pool[("ecc", 256)])
+        self_signed = rng.random() < 0.6
+        inp = kdesc([signer], isk=isk.desc(), self_signed=self_signed)
+        s.note((isk.id, signer.id, self_signed), cls=f"self_signed={self_signed}{'-lz' if isk.lead_zero() else ''}")
+        cbr = pyres(lambda: CertBlockVx(isk_cert=isk.raw_nxp() if ci % 2 else isk.form("pub_pem", scratch)[0],
+                                        signature_provider=PlainFileSP(signer.file("priv_pem", scratch)), self_signed=self_signed))
+        if cbr[0] != "ok":
+            s.expect(False, inp, "CertBlockVx cannot be built", cbr)
+            continue
+        cb = cbr[1]
+        tbs, ex = pyres(cb.get_tbs_data), pyres(cb.export)
+        if tbs[0] != "ok" or ex[0] != "ok":
+            s.expect(False, inp, "CertBlockVx.get_tbs_data / export fails", (tbs[0], ex[0]))
+            continue
+        data = ex[1]
+        exp_tbs = struct.pack("<HHI", 0x4D43, 1, int(self_signed)) + isk.raw_nxp()
+        s.expect(tbs[1] == exp_tbs and data[:72] == exp_tbs and len(data) == 136, inp, "lite ISK certificate is not magic | version | constraints | X||Y | signature(64)",
+                 data[:80].hex(), exp_tbs.hex())
+        try:
+            signer.pub.verify(encode_dss_signature(int.from_bytes(data[72:104], "big"), int.from_bytes(data[104:136], "big")), data[:72], ec.ECDSA(hashes.SHA256()))
+            good = True
+        except (InvalidSignature, ValueError):
+            good = False
+        s.expect(good, inp, "lite ISK certificate signature does not verify over the 72 to-be-signed bytes")
+        ask(f"lite_tbs {int(self_signed)} {isk.raw_nxp().hex()}", lambda a, tbs=tbs, inp=inp: s.compare(inp, hx(tbs[1]), a, "IskCertificateLite.get_tbs_data differs from the model"))
+        ask(f"lite_export {int(self_signed)} {isk.raw_nxp().hex()} {data[72:].hex()}", lambda a, data=data, inp=inp: s.compare(inp, hx(data), a, "CertBlockVx.export differs from the model"))
+        pr = pyres(CertBlockVx.parse, data + bytes(rng.choice([0, 5])))
+        s.expect(pr[0] == "ok" and pyres(pr[1].export) == ex, inp, "CertBlockVx does not survive export -> parse -> export", pr[0])
+        ask(f"vx_parse {data.hex()}", lambda a, data=data, inp=inp, ss=self_signed: s.compare(inp, f"ok:{int(ss)} {data[8:72].hex()} {data[72:].hex()}", a, "model vxParse differs"))
+        h = pyres(lambda: cb.cert_hash)
+        script = pyres(cb.get_otp_script)
+        exp_h = hashlib.sha256(data).digest()[:16]
+        words = re.findall(r"flash-program-once 0x[0-9a-f]+ 4 ([0-9a-f]{8})", script[1]) if script[0] == "ok" else []
+        s.expect(h == ("ok", exp_h) and words == [exp_h[i:i + 4][::-1].hex() for i in range(0, 16, 4)], inp,
+                 "cert_hash / OTP script words are not SHA-256(export)[:16] in byte-reversed 4-byte groups", (h, words))
+        ask(f"vx_hash {int(self_signed)} {isk.raw_nxp().hex()} {data[72:].hex()}",
+            lambda a, exp_h=exp_h, words=words, inp=inp: s.compare(inp, f"ok:{exp_h.hex()} {','.join(words)}", a, "model vxCertHash / vxFuseWords differ"))
+        if fam and ci < ck.budget(3, 10):
+            d = Path(scratch) / f"vx{ci}"
+            d.mkdir(exist_ok=True)
+            (d / "isk.pub").write_bytes(isk.form("pub_pem", scratch)[0])
+            (d / "root.pem").write_bytes(signer.form("priv_pem", scratch)[0])
+            (d / "cfg.yaml").write_text(yaml.safe_dump({"selfSigned": self_signed, "iskPublicKey": "isk.pub", "signPrivateKey": "root.pem", "containerOutputFile": "vx.bin"}))
+            r = runner.invoke(nxpimage.main, ["cert-block", "export", "-c", str(d / "cfg.yaml"), "-f", fam])
+            got = (d / "vx.bin").read_bytes() if (d / "vx.bin").exists() else b""
+            s.expect(r.exit_code == 0 and got[:72] == exp_tbs and len(got) == 136, dict(inp, family=fam), "nxpimage cert-block export (Vx) differs", (r.exit_code, (r.output or "")[-160:]))
+            r2 = runner.invoke(nxpimage.main, ["cert-block", "get-isk-tbs", "-f", fam, "-p", str(d / "isk.pub"), "-o", str(d / "tbs.bin")])
+            got2 = (d / "tbs.bin").read_bytes() if (d / "tbs.bin").exists() else b""
+            s.expect(r2.exit_code == 0 and got2 == struct.pack("<HHI", 0x4D43, 1, 0) + isk.raw_nxp(), dict(inp, family=fam), "nxpimage cert-block get-isk-tbs differs", (r2.exit_code, got2.hex()[:40]))
+    ask.flush()
 
 # ------------------------------------------------------------------------------------------------ CLI
 def stream_cli(ck, pool, scratch, by_type):
